@@ -389,6 +389,10 @@ def build_with_history(ctx, spec, mode, hseed, kw=None, prefer=None):
                 a["loss"] = not a.get("loss", False)
             else:
                 a["rt"] = G.sig(abs(a.get("rt", 0.0)) * 4.0 + 7.0)
+            if c["kind"] not in S.LOADS and rng.random() < 0.4:
+                # ... and another rail name (or none / one where there will be none) until then; children that connect
+                # through the rail do so through the name valid at the time
+                c["rail"] = "" if (c.get("rail") and rng.random() < 0.3) else "~rail " + c["name"]
             if rng.random() < 0.5:
                 # ... and another group label until then (a label, but drawings and the Group column follow it)
                 c["group"] = rng.choice([g_ for g_ in ("", "G1", "zz", "Analog") if g_ != c.get("group", "")])
